@@ -7,6 +7,7 @@ package vh
 import (
 	"encoding/json"
 	"fmt"
+	"net"
 	"os"
 	"path/filepath"
 	"sort"
@@ -68,11 +69,22 @@ func setErr(m map[string]any, i int) string {
 	return str(s, "err")
 }
 
+// ipv6Loopback reports whether this machine can "connect" a UDP socket to ::1 (no packet is sent).
+func ipv6Loopback() bool {
+	c, err := net.Dial("udp", "[::1]:53")
+	if err != nil {
+		return false
+	}
+	c.Close()
+	return true
+}
+
 func TestDrv_C19(t *testing.T) {
 	dir := outDir(t)
 	tr := NewTracer(filepath.Join(dir, "c19.ndjson"))
 	defer tr.Close()
 	r := newRand(19)
+	ipv6 := ipv6Loopback()
 	tr.Emit("Reset", nil)
 	var cases []rateCase
 	must(readNDJSON(os.Getenv("VERIF_CASES"), func(line []byte) error {
@@ -205,6 +217,9 @@ func TestDrv_C19(t *testing.T) {
 		for k := range addrs {
 			ip := fmt.Sprintf("127.0.0.%d", 1+r.Intn(20))
 			port := []int{0, 0, 53, 5353, 10053}[r.Intn(5)]
+			if ipv6 && r.Intn(3) == 0 { // the only accepted form of an IPv6 server is [ip]:port
+				ip, port = "[::1]", []int{53, 5353, 10053}[r.Intn(3)]
+			}
 			addrs[k] = KV{"ip": ip, "port": port}
 			if port == 0 {
 				parts = append(parts, ip)
